@@ -109,6 +109,18 @@ def instantiate(rng, cfg):
         msk = np.zeros((len(st), len(st)), dtype=bool)
         msk[0, 1] = msk[1, 0] = True
         inst["fdkind"], inst["fd_blocks"], inst["masks"] = "dict", [b], {b: msk}
+        # variant: a second mask that eliminates nothing, on a LOWER-numbered block of the same size whose
+        # own levels differ, and the dictionary written with DESCENDING keys (masks paired with the
+        # degeneracy patterns by position instead of by key would let the offending mask through)
+        lower = [x for x in range(b) if inst["sizes"][x] == len(st)]
+        if lower:
+            b2 = lower[0]
+            st2 = states_of(inst, b2)
+            if len(st2) >= 2 and inst["E"][st2[0]] == inst["E"][st2[1]]:
+                raise Regenerate("degenerate pair in the second masked block")
+            inst["fd_blocks"] = [b, b2]
+            inst["masks"] = {b: msk, b2: np.zeros((len(st2), len(st2)), dtype=bool)}
+            rec["where"] = "offending_mask_first_descending_keys"
     elif cls == "asymmetric_mask":
         b = next((x for x in [which_block(cfg["pos"]), 0, 1, 2] if inst["sizes"][x] >= 2), None)
         st = states_of(inst, b)
